@@ -61,7 +61,7 @@ func parallel(par, n int, fn func(i int)) {
 
 func TestZZVerifC18(t *testing.T) {
 	run := core.NewRun("C18", "exploration",
-		"concurrent histories against the real storage backends (inmem.Backend; raft.Backend over a serialising loop-back handle, 30% with a snapshot + restore in the middle): 4-8 client goroutines x 30 operations (WriteCAS create/update/stale/wrong-uid/bogus-version, read-modify-write, DeleteCAS current/stale/old-uid, strong Read with and without uid, List over 10 tenancy/prefix scopes, ListByOwner) over 3 prefix-related names x 2 tenancies, 2-3 watcher goroutines (WatchList, started at a PRNG-chosen depth into the history, a strong Read after every event, re-subscribing after ErrWatchClosed), GOMAXPROCS in {2,4,all}; every call recorded at the storage.Backend boundary with call/return time from one monotonic clock; every written payload carries a unique id. Each history is checked (1) with porcupine against a sequential specification of the documented contract, partitioned by resource (lists decomposed per resource, watch events as observations, snapshot/restore as model operations), (2) by direct CAS/UID invariants, (3) by an exact watch-stream monitor (initial listing, per-resource commit order via the version chain, read-after-event), (4) restore checks. Part S: the same monitors on the backend-boundary history produced by concurrent clients of the resource SERVICE (server-assigned UIDs). non-trivial = history with >=1 pair of overlapping writers presenting the same version, >=1 re-created resource and >=1 live watch event; distinct by the sequence of (client, op, arguments, outcome)")
+		"concurrent histories against the real storage backends (inmem.Backend; raft.Backend over a serialising loop-back handle, 30% with a snapshot + restore in the middle): 4-8 client goroutines x 30 operations (WriteCAS create/update/stale/wrong-uid/bogus-version, read-modify-write, DeleteCAS current/stale/old-uid, strong Read with and without uid, List over 10 tenancy/prefix scopes, ListByOwner) over 3 prefix-related names x 2 tenancies, 2-3 watcher goroutines (WatchList, started at a PRNG-chosen depth into the history, a strong Read after every event, re-subscribing after ErrWatchClosed), GOMAXPROCS in {2,4,all}; every call recorded at the storage.Backend boundary with call/return time from one monotonic clock; every written payload carries a unique id. Each history is checked (1) with porcupine against a sequential specification of the documented contract, partitioned by resource (lists decomposed per resource, watch events as observations, snapshot/restore as model operations), (2) by direct CAS/UID invariants, (3) by an exact watch-stream monitor (initial listing, per-resource commit order via the version chain, read-after-event), (4) restore checks. Part S: the same monitors on the backend-boundary history produced by concurrent clients of the resource SERVICE (server-assigned UIDs). Part W (restore window): inmem.Store driven through Snapshot/Restore/Apply/Commit with writes committing BETWEEN Restore() and Commit() while two watchers share the subject (one re-watching before the other closed), new watches opened after Commit() and further writes; a deterministic sequential family (all 7 window-write sets x 16 variants) and a concurrent one (one writer goroutine per resource across the window); judged by a sequential model with the restore at the Commit point and the exact post-restore event sequence per resource. non-trivial = history with >=1 pair of overlapping writers presenting the same version, >=1 re-created resource and >=1 live watch event; distinct by the sequence of (client, op, arguments, outcome)")
 	run.Assume("the loop-back raft handle applies log entries, snapshots and restores one at a time with increasing indexes, as hashicorp/raft does for an FSM",
 		"clients never invent a uid that was used before (creates use fresh uids), as the resource service does with ULIDs",
 		"List/ListByOwner on a single in-process backend are treated as linearizable per resource (they read the same MemDB)")
@@ -114,6 +114,7 @@ func TestZZVerifC18(t *testing.T) {
 	run.CountN("histories", n)
 
 	runServicePart(t, run, rng.Fork(1<<40))
+	runWindowPart(t, run, rng.Fork(1<<41))
 
 	hmin := func(q, th int) int {
 		if zvRace {
